@@ -312,6 +312,30 @@ def scratch_allocations(F):
     return out
 
 
+def nested_slices(F, R, rule='B.C02.ibs'):
+    """An effect that forwards audio to nested effects (Delay's feedback loop) hands them exactly the frames of the current
+    chunk: scratch[..input.len()], never the whole scratch buffer."""
+    n = 0
+    for im in F.impls:
+        if im['trait'] != 'effect::Effect' or im['self_ty'].startswith('std::boxed::Box'):
+            continue
+        items = {it['name']: it['path'] for it in im['items']}
+        b = F.body(items.get('process', ''))
+        if b is None:
+            continue
+        for bb, t in b.calls():
+            if (callee_path(t) or '') != 'effect::Effect::process':
+                continue
+            n += 1
+            d = describe(b, t['args'][1], depth=8, at=bb)
+            ok = d in ('input', '&(*input)', '(*input)') or ('RangeTo' in d and 'core::slice::<impl [T]>::len(' in d and ('input' in d or 'ChunksMut' in d))
+            R.check(ok, rule, 'nested:%s#%d' % (im['self_ty'], n),
+                    '%s::process hands %s to its nested effects: not the current chunk nor scratch[..input.len()] (nested stateful effects would '
+                    'advance by a different number of frames than were processed, so the output depends on how the input is split)'
+                    % (im['self_ty'], d[:140]), detail={'effect': im['self_ty'], 'slice': d[:120]}, where=b.where(bb))
+    return n
+
+
 def ibs(F, R):
     """All scratch buffers are allocated with internal_buffer_size; children get temp_buffer[..out.len()] or out itself."""
     n = 0
@@ -337,6 +361,7 @@ def ibs(F, R):
                 R.check(ok, 'B.C02.ibs', 'slice:%s->%s' % (owner.split('::')[-1], cp.split('::')[-2] + '::' + cp.split('::')[-1]) + '#%d' % m,
                         '%s hands %s to %s: not the incoming buffer nor temp_buffer[..out.len()]' % (owner, d[:160], cp),
                         detail={'owner': owner, 'callee': cp, 'slice': d[:140]}, where=b.where(bb))
+    m += nested_slices(F, R)
     rb = F.body('backend::renderer::Renderer::process')
     if rb is not None:
         cs = calls_to(rb, 'core::slice::<impl [T]>::chunks_mut')
